@@ -40,6 +40,26 @@ func (p *C09) Prepare(env *Env, tier string, seed uint64) error {
 	if tier == "replay" {
 		return nil
 	}
+	if tier == "thorough" {
+		// tens of megabytes of input: millions of consecutive comment lines,
+		// millions of chords, one enormous token
+		huge := [][]byte{
+			append(bytes.Repeat([]byte(";\n"), 20_000_000), []byte("C[1]\n")...),
+			append(bytes.Repeat([]byte(" \n\t"), 10_000_000), []byte("C[1]\n")...),
+			[]byte("C" + strings.Repeat("m", 30_000_000) + "[1]"),
+			[]byte("C[1]{txt=" + strings.Repeat("a ", 15_000_000) + "}"),
+		}
+		for i, in := range huge {
+			argv := []string{"text", "parse"}
+			if i%2 == 1 {
+				argv = []string{"text", "conv", "syllable"}
+			}
+			st := Step{Step: simrt.Step{Argv: argv, Seed: seed + uint64(i), Stdin: &simrt.Stream{Data: in, Plan: simrt.Plan{Chunks: []int{1 << 16}}}}}
+			p.cuts = append(p.cuts, &Case{Property: "C09", Kind: "single", Seed: seed, Run: 1_000_000 + len(p.cuts), Steps: []Step{st},
+				Labels: []string{"fault:F8:overlong", "tens-of-megabytes"}})
+			p.nflag++
+		}
+	}
 	// flag-value enumeration: every flag of every command with every value of
 	// the list (the input is a small valid one, so the flag decides)
 	p.enumFlags(seed)
